@@ -314,7 +314,8 @@ def rule_V3(ctx) -> None:
 
 def rule_V4(ctx) -> None:
     mod = ctx.repo.mod(M_INIT)
-    for name, must in (("__getstate__", "bytes(self)"), ("__reduce__", "bytes(self)"), ("__setstate__", ".parse("), ("FromString", ".parse(")):
+    # (what __getstate__ / __reduce__ hand to pickle is decided path by path in V11)
+    for name, must in (("__setstate__", ".parse("), ("FromString", ".parse(")):
         fn = mod.func(f"Message.{name}")
         src = ast.unparse(fn)
         rets = [ast.unparse(n.value) for n in ast.walk(fn) if isinstance(n, ast.Return) and n.value is not None]
@@ -478,36 +479,38 @@ def rule_V10(ctx, rule: str = "V10") -> None:
 
 
 def rule_V11(ctx, rule: str = "V11") -> None:
-    """pickling goes through the bytes of the message on every path: __reduce__ hands the unpickler something that is built
-    from bytes(self) - a path that returns the bare class loses what only the encoding carries (a oneof member selected at its
-    default, a present-but-empty child: bool(message) is False for both)"""
+    """pickling goes through the bytes of the message on every path: what __reduce__ / __getstate__ hand to pickle is built
+    from bytes(self) (or one of its synonyms) - a path that returns the bare class loses what only the encoding carries (a oneof
+    member selected at its default, a present-but-empty child: bool(message) is False for both)"""
     mod = ctx.repo.mod(M_INIT)
-    if not mod.has("Message.__reduce__"):
-        ctx.proved(rule, "__reduce__:through-the-encoding", M_INIT, "no __reduce__: the default protocol copies the instance state")
-        return
-    fn = mod.func("Message.__reduce__")
-    ctx.analysed("Message.__reduce__")
-    paths = Interp(mod, fork_ifexp=True).run(fn)
-    ctx.count(len(paths))
-    bad = None
-    n = 0
-    for p in paths:
-        if p.outcome != "return" or p.value is None:
+    synonyms = {"self.__bytes__", "self.SerializeToString", "self.dump"}
+    for meth in ("__reduce__", "__getstate__"):
+        name = f"{meth}:through-the-encoding"
+        if not mod.has(f"Message.{meth}"):
+            ctx.proved(rule, name, M_INIT, f"no {meth}: the default protocol copies the instance state")
             continue
-        n += 1
-        carries = any(t[0] == "call" and ((dotted(t[1]) == "bytes" and t[2] == (N("self"),)) or dotted(t[1]) in ("self.__bytes__", "self.SerializeToString", "self.__getstate__", "self.dump"))
-                      for t in _walk(p.value))
-        if not carries:
-            bad = bad or p
-    name = "__reduce__:through-the-encoding"
-    if bad:
-        ctx.refuted(rule, name, show(bad.value)[:80], mod.loc(fn), f"on {val_text(bad.valuation)} __reduce__ returns {show(bad.value)}, which does not carry bytes(self): whatever the truth test "
-                    "on that path ignores (the selection of a oneof member that holds its default, presence of an empty child) is lost by a pickle round trip",
-                    "pickle.loads(pickle.dumps(M(a=0)))  # a: oneof member")
-    elif not n:
-        ctx.inconclusive(rule, name, "no returning path", mod.loc(fn))
-    else:
-        ctx.proved(rule, name, mod.loc(fn), f"{n} returning paths, each built from bytes(self)")
+        fn = mod.func(f"Message.{meth}")
+        ctx.analysed(f"Message.{meth}")
+        paths = Interp(mod, fork_ifexp=True).run(fn)
+        ctx.count(len(paths))
+        bad = None
+        n = 0
+        for p in paths:
+            if p.outcome != "return" or p.value is None:
+                continue
+            n += 1
+            carries = any(t[0] == "call" and ((dotted(t[1]) == "bytes" and t[2] == (N("self"),)) or dotted(t[1]) in synonyms or (meth == "__reduce__" and dotted(t[1]) == "self.__getstate__"))
+                          for t in _walk(p.value))
+            if not carries:
+                bad = bad or p
+        if bad:
+            ctx.refuted(rule, name, show(bad.value)[:80], mod.loc(fn), f"on {val_text(bad.valuation) or 'the only path'} {meth} returns {show(bad.value)}, which does not carry bytes(self): whatever the truth "
+                        "test on that path ignores (the selection of a oneof member that holds its default, presence of an empty child) is lost by a pickle round trip",
+                        "pickle.loads(pickle.dumps(M(a=0)))  # a: oneof member")
+        elif not n:
+            ctx.inconclusive(rule, name, "no returning path", mod.loc(fn))
+        else:
+            ctx.proved(rule, name, mod.loc(fn), f"{n} returning paths, each built from bytes(self)")
 
 
 def run(ctx) -> None:
